@@ -15,7 +15,7 @@ theorem cscalar_sum_rect_eq_model (n0 n1 y0 x0 y1 x1 : Int) :
     surfTrace n0 n1 (sum_rect [n0, n1] y0 x0 y1 x1) = sumRectAccesses n0 n1 y0 x0 y1 x1 := by
   unfold sum_rect sumRectAccesses surfTrace
   simp only [List.getD_cons_zero, List.getD_cons_succ, Int.toNat_zero, Int.toNat_one]
-  split <;> simp [at2]
+  split <;> simp [at2] <;> grind
 
 /-- **`csum_rect` (C++ text) = `C10Surf.csumRectAccesses`** -/
 theorem cscalar_csum_rect_eq_model (n0 n1 y x dy dx h w : Int) :
